@@ -1,5 +1,7 @@
-(* C03 — the hypothesis "the unlock rule has been applied" of C03_sync_round_decides_on_model
-   cannot be dropped: REFUTATION of the statement without it, on the code model.
+(* C03 — finding F70 (repaired): the regression witness.  BEFORE the repair the hypothesis "the
+   unlock rule has been applied" of C03_sync_round_decides_on_model could not be dropped:
+   REFUTATION of the statement without it, on the model of the unrepaired defaultDoPrevote
+   (Model.do_prevote_unfixed); the repaired step (Model.do_prevote) prevotes the proposal.
 
    Sync.v applies the unlock rule with every polka a node knows.  consensus/state.go applies it
    only at two moments: in addVote when a prevote is ADDED for a round vr with
@@ -66,10 +68,13 @@ Theorem sync_without_settled_refuted :
     Sync.n_lock (Sync.unlock pol n) = None /\
     Sync.is_latest pol (1, Some (b_hash b)) /\
     Sync.prevote_of (b_hash b) (Sync.unlock pol n) = b_hash b /\
-    (* the code model: still locked, and it prevotes its locked block *)
+    (* the code model: still locked; the UNREPAIRED prevote step prevotes the locked block ... *)
     Sync.n_lock n = Some (0, 5%N) /\
+    snd (do_prevote_unfixed E (set_prop (Some p) (Some b) (Some (one_part (snd (pr_bid p)))) s)) =
+      [OSignVote PREVOTE 1 2 (Some (5%N, (1%N, 50%N)))] /\
+    (* ... the repaired one (the model of record) unlocks and prevotes the proposal *)
     concat (snd (run E s [IProposal p; IPart 1 (snd (pr_bid p)) 0%N (Some b)])) =
-      [OSignVote PREVOTE 1 2 (Some (5%N, (1%N, 50%N)))].
+      [OSignVote PREVOTE 1 2 (Some (7%N, (1%N, 70%N)))].
 Proof.
   exists w_env, w_prefix, w_pol, w_p, w_b. cbv zeta.
   split; [vm_compute; reflexivity|]. split; [vm_compute; reflexivity|].
@@ -89,34 +94,26 @@ Proof.
   split; [vm_compute; reflexivity|].
   split.
   { split; [right; left; reflexivity|]. intros q [<-|[<-|[]]]; cbn; lia. }
-  split; [vm_compute; reflexivity|]. split; vm_compute; reflexivity.
+  split; [vm_compute; reflexivity|]. split; [vm_compute; reflexivity|]. split; vm_compute; reflexivity.
 Qed.
 
-(* The same machine through six synchronous rounds (2..7) in which the two other correct
-   validators, locked on Y by the polka of round 1, propose Y with POL round 1 and prevote Y,
-   the faulty validator is silent, every message is delivered and timeouts fire only after all
-   messages: the machine prevotes X in every round, precommits nil, and is still locked on X
-   from round 0 at the end.  With 2 of 4 for Y and 1 of 4 for X no round can produce a polka:
-   three correct validators with 3/4 of the power do not decide. *)
-Definition w_round (rho : Z) : list input :=
-  [ IProposal {| pr_height := 1; pr_round := rho; pr_polr := 1; pr_bid := (7%N, (1%N, 70%N)); pr_signer := 1; pr_sigvalid := true |};
-    IPart 1 (1%N, 70%N) 0%N (Some w_b);
-    w_vote PREVOTE rho w_X 0; w_vote PREVOTE rho w_Y 1; w_vote PREVOTE rho w_Y 2;
-    ITimeout {| ti_height := 1; ti_round := rho; ti_step := SPrevoteWait |};
-    w_vote PRECOMMIT rho None 0; w_vote PRECOMMIT rho None 1; w_vote PRECOMMIT rho None 2;
-    ITimeout {| ti_height := 1; ti_round := rho; ti_step := SPrecommitWait |} ].
-Definition w_suffix : list input := flat_map w_round [2; 3; 4; 5; 6; 7].
+(* With the repaired step the same machine, in the synchronous round 2 (proposal Y with POL
+   round 1 from the correct proposer, the prevotes of the two other correct validators for Y, its
+   own votes as it signs them, the faulty validator silent): it prevotes Y, locks Y on the polka,
+   precommits Y and decides when the two other precommits arrive. *)
+Definition w_round2_fixed : list input :=
+  [ IProposal w_p; IPart 1 (1%N, 70%N) 0%N (Some w_b);
+    w_vote PREVOTE 2 w_Y 0;                              (* its own prevote; C's and D's are already in *)
+    w_vote PRECOMMIT 2 w_Y 0; w_vote PRECOMMIT 2 w_Y 1; w_vote PRECOMMIT 2 w_Y 2 ].
 
 Definition w_signed_votes (os : list (list output)) : list (N * Z * Z * blockid) :=
   flat_map (fun o => match o with OSignVote ty hh rr x => [(ty, hh, rr, x)] | _ => [] end) (concat os).
 
-Example w_six_rounds_without_progress :
-  let '(s', os) := run w_env w_state w_suffix in
-  w_signed_votes os =
-    flat_map (fun rho => [(PREVOTE, 1, rho, w_X); (PRECOMMIT, 1, rho, None)]) [2; 3; 4; 5; 6; 7] /\
-  (cs_halted s', cs_height s', cs_round s', cs_step s') = (false, 1, 8, SPropose) /\
-  (cs_lround s', cs_lblock s') = (0, Some {| b_hash := 5%N; b_valid := true |}) /\
-  existsb (fun o => match o with ODecide _ _ _ => true | _ => false end) (concat os) = false.
+Example w_round2_decides_when_repaired :
+  let '(s', os) := run w_env w_state w_round2_fixed in
+  w_signed_votes os = [(PREVOTE, 1, 2, w_Y); (PRECOMMIT, 1, 2, w_Y)] /\
+  existsb (fun o => match o with ODecide 1 2 7%N => true | _ => false end) (concat os) = true /\
+  (cs_halted s', cs_height s') = (false, 2).
 Proof. vm_compute. repeat split. Qed.
 
 (* ---------------------------------------------------------------- lock round above valid round
@@ -161,52 +158,3 @@ Proof.
     + intros rr x y [H1|[H1|[]]] [H2|[H2|[]]]; congruence.
 Qed.
 
-(* ---------------------------------------------------------------- locked on X, valid block an OLDER Y
-
-   Even the weaker clause of SyncWeak.Inv' (valid round >= lock round OR valid block = locked
-   block) is not an invariant of the code.  The machine, locked on X in round 0, learns the polka
-   for Y of round 1 while in round 0 (no unlock), prevotes X in round 1 on the propose timeout,
-   then receives Y's proposal and block: handleCompleteProposal makes Y the valid block of
-   round 1 (it never touches the lock).  Before its own prevote comes back it is carried to round
-   2 by the prevotes for X there (validators that prevoted Y in round 1 without seeing the polka
-   are free to prevote X), which form a polka for X: enterPrecommit re-locks X with LockedRound 2.
-   The node is now locked on X (round 2) and would, as proposer, re-propose its valid block Y
-   (POL round 1) — not the block of the latest polka: C03_locked_node_is_good_proposer(_weak)
-   does not transfer to the code for such a node (a wasted round, not a livelock). *)
-Definition w_prefix3 : list input :=
-  firstn 7 w_prefix ++
-  [ w_vote PREVOTE 1 w_Y 1; w_vote PREVOTE 1 w_Y 2; w_vote PREVOTE 1 w_Y 3;
-    ITimeout {| ti_height := 1; ti_round := 1; ti_step := SPropose |};
-    IProposal {| pr_height := 1; pr_round := 1; pr_polr := -1; pr_bid := (7%N, (1%N, 70%N)); pr_signer := 2; pr_sigvalid := true |};
-    IPart 1 (1%N, 70%N) 0%N (Some w_b);
-    w_vote PREVOTE 2 w_X 1; w_vote PREVOTE 2 w_X 2; w_vote PREVOTE 2 w_X 3;
-    ITimeout {| ti_height := 1; ti_round := 2; ti_step := SPropose |};
-    w_vote PREVOTE 2 w_X 0;
-    ITimeout {| ti_height := 1; ti_round := 2; ti_step := SPrevoteWait |} ].
-
-Theorem lock_on_other_than_valid_reachable :
-  exists (E : env) (ins : list input),
-    let s := fst (run E (init_state E 1 None) ins) in
-    let n := abs 10 s in
-    let pol : list Sync.polka := [(0, Some 5%N); (1, Some 7%N); (2, Some 5%N)] in
-    cs_halted s = false /\
-    (forall rr v, In (rr, Some v) pol -> exists ph, o_maj23 (prevotes (cs_votes s) rr) = Some (Some (v, ph))) /\
-    Sync.n_lock n = Some (2, 5%N) /\ Sync.n_valid n = Some (1, 7%N) /\
-    ~ SyncWeak.Inv' pol [n] /\
-    (* what it would propose (its valid block) is not the block of the latest polka *)
-    Sync.is_latest pol (2, Some 5%N) /\ Sync.proposal_of 9%N (Sync.unlock pol n) = 7%N.
-Proof.
-  exists w_env, w_prefix3. cbv zeta.
-  assert (En : abs 10 (fst (run w_env (init_state w_env 1 None) w_prefix3)) =
-               {| Sync.n_power := 10; Sync.n_lock := Some (2, 5%N); Sync.n_valid := Some (1, 7%N) |})
-    by (vm_compute; reflexivity).
-  rewrite En.
-  split; [vm_compute; reflexivity|].
-  split.
-  { intros rr v [H|[H|[H|[]]]]; injection H as <- <-; eexists; vm_compute; reflexivity. }
-  split; [reflexivity|]. split; [reflexivity|]. split; [|split].
-  - intros [_ _ C _]. destruct (C _ 2 5%N (or_introl eq_refl) eq_refl) as (vr & vv & Ev & Hle).
-    cbn in Ev. injection Ev as <- <-. destruct Hle as [Hle|Hle]; [lia | discriminate].
-  - split; [right; right; left; reflexivity|]. intros q [<-|[<-|[<-|[]]]]; cbn; lia.
-  - vm_compute. reflexivity.
-Qed.
